@@ -509,6 +509,27 @@ def _encoder(ck: Check, prog: Program) -> None:
             ck.finding('ENC-EXHAUSTIVE', d.qualname, f'{ci.name} not encodable', d.module.rel, d.node.lineno,
                        f'JSONEncoder.default does not delegate {ci.name} objects to to_json(): json.dumps(msg, cls=JSONEncoder) raises TypeError')
     ck.require('ENC-EXHAUSTIVE', 'message classes', len(need), 5)
+    # ... and nothing else is encoded by accident: every other return of default() delegates to the base encoder (which raises TypeError
+    # for objects it does not know) — a bare `return None` would turn any unencodable parameter / result into null on the wire
+    other = []
+    for m in cfg.stmt_nodes():
+        if m.kind == 'stmt' and isinstance(m.ast, ast.Return):
+            v = m.ast.value
+            if v is not None and isinstance(v, ast.Call) and norm(v).endswith('.to_json()'):
+                continue
+            if v is not None and isinstance(v, ast.Call) and isinstance(v.func, ast.Attribute) and v.func.attr == 'default' and \
+                    isinstance(v.func.value, ast.Call) and dotted(v.func.value.func) == 'super':
+                continue
+            other.append(m)
+    falls_off = cfg.exit.id in cfg.reachable(cfg.entry, avoid_nodes=[m for m in cfg.stmt_nodes() if isinstance(m.ast, (ast.Return, ast.Raise))],
+                                             edge_ok=lambda e: e.label != 'exc')
+    ok_rest = not other and not falls_off
+    ck.ob('ENC-EXHAUSTIVE', 'JSONEncoder.default hands every other object to the base encoder', ok_rest)
+    if not ok_rest:
+        line = other[0].line if other else d.node.lineno
+        ck.finding('ENC-EXHAUSTIVE', d.qualname, 'unknown objects are not delegated to the base encoder', d.module.rel, line,
+                   f'`{norm(other[0].ast) if other else "falling off the end"}`: an object the encoder does not know is serialised as that value (null) instead of '
+                   f'raising TypeError, so a message with such a parameter / result does not survive the wire unchanged and nobody is told')
 
 
 MUTANTS = [
